@@ -1313,6 +1313,9 @@ fn alignment(addr: usize) -> usize {
 
 pub(crate) mod copy_slice_impl {
     use super::*;
+    // Traced primitives (explicit import shadows the glob-imported std functions).
+    #[cfg(feature = "verif-hooks")]
+    use crate::verif_hooks::{read_volatile, write_volatile};
 
     // SAFETY: Has the same safety requirements as `read_volatile` + `write_volatile`, namely:
     // - `src_addr` and `dst_addr` must be valid for reads/writes.
